@@ -619,6 +619,9 @@ class RemoteWorker(Worker, metaclass=RemoteWorkerMeta):
         finally:
             self._cleanup()
             logger.debug('Sending result')
+            if result is None:
+                # we are leaving due to something which is not an Exception (SystemExit, KeyboardInterrupt, ...)
+                result = (False, None)
             send_msg(self._socket, result, 'data: result')
             send_msg(self._socket, self._user_state, 'data: user state')
             logger.debug('Closing down backend-side socket')
